@@ -150,7 +150,8 @@ def configs(tier, seed):
     out = []
     quick = tier == 'quick'
     for kind in KERNELS:
-        sizes = [((2, 2), (1, 2)), ((1, 2), (2, 1)), ((4, 1), (1, 4))] if quick else [((2, 2), (1, 2)), ((1, 2), (2, 1)), ((3, 2), (2, 3)), ((2, 3), (3, 3)), ((4, 1), (1, 4)), ((5, 4), (4, 5)), ((6, 2), (3, 6))]
+        # (five terms along one direction: one more than the four boundary functions, on either panel and in either direction)
+        sizes = [((2, 2), (1, 2)), ((1, 2), (2, 1)), ((4, 1), (1, 4)), ((1, 4), (4, 1)), ((1, 5), (1, 1)), ((1, 1), (1, 5)), ((5, 1), (1, 1)), ((1, 1), (5, 1))] if quick else [((2, 2), (1, 2)), ((1, 2), (2, 1)), ((3, 2), (2, 3)), ((2, 3), (3, 3)), ((4, 1), (1, 4)), ((5, 4), (4, 5)), ((6, 2), (3, 6))]
         for mn1, mn2 in sizes:
             for order in ('p1-first', 'p2-first'):
                 out.append({'kind': kind, 'variant': 'matrix', 'mn1': mn1, 'mn2': mn2, 'order': order, 'm': mn1[0], 'n': mn1[1],
